@@ -64,7 +64,7 @@ use std::{
     ops::{Deref, DerefMut},
     sync::{
         atomic::{AtomicUsize, Ordering},
-        Arc, Mutex, Weak,
+        Arc, Weak,
     },
     time::Duration,
 };
@@ -75,7 +75,13 @@ use std::time::Instant;
 use deadpool_runtime::Runtime;
 #[cfg(deadpool_verif)]
 use deadpool_runtime::verif;
-use tokio::sync::{Semaphore, TryAcquireError};
+#[cfg(deadpool_verif)]
+use crate::verif_sync::{Mutex, Semaphore};
+#[cfg(not(deadpool_verif))]
+use std::sync::Mutex;
+#[cfg(not(deadpool_verif))]
+use tokio::sync::Semaphore;
+use tokio::sync::TryAcquireError;
 
 pub use crate::Status;
 
@@ -169,7 +175,7 @@ impl<M: Manager> Drop for UnreadyObject<'_, M> {
             verif::point("managed.unready_drop.enter");
             #[cfg(deadpool_verif)]
             verif::lock_point("managed.unready_drop.lock", || {
-                verif::is_locked(&self.pool.slots)
+                verif::is_locked(self.pool.slots.raw())
             });
             self.pool.slots.lock().unwrap().size -= 1;
             #[cfg(deadpool_verif)]
@@ -392,7 +398,7 @@ impl<M: Manager, W: From<Object<M>>> Pool<M, W> {
             verif::point("managed.get.loop");
             #[cfg(deadpool_verif)]
             verif::lock_point("managed.get.pop.lock", || {
-                verif::is_locked(&self.inner.slots)
+                verif::is_locked(self.inner.slots.raw())
             });
             let inner_obj = match self.inner.config.queue_mode {
                 QueueMode::Fifo => self.inner.slots.lock().unwrap().vec.pop_front(),
@@ -501,7 +507,7 @@ impl<M: Manager, W: From<Object<M>>> Pool<M, W> {
         verif::point("managed.create.pre_size");
         #[cfg(deadpool_verif)]
         verif::lock_point("managed.create.size.lock", || {
-            verif::is_locked(&self.inner.slots)
+            verif::is_locked(self.inner.slots.raw())
         });
         self.inner.slots.lock().unwrap().size += 1;
         #[cfg(deadpool_verif)]
@@ -544,7 +550,7 @@ impl<M: Manager, W: From<Object<M>>> Pool<M, W> {
         verif::point("managed.resize.post_closed_check");
         #[cfg(deadpool_verif)]
         verif::lock_point("managed.resize.lock", || {
-            verif::is_locked(&self.inner.slots)
+            verif::is_locked(self.inner.slots.raw())
         });
         let mut slots = self.inner.slots.lock().unwrap();
         // The pool might have been closed while waiting for the lock.
@@ -637,7 +643,7 @@ impl<M: Manager, W: From<Object<M>>> Pool<M, W> {
         verif::point("managed.retain.post_status");
         #[cfg(deadpool_verif)]
         verif::lock_point("managed.retain.lock", || {
-            verif::is_locked(&self.inner.slots)
+            verif::is_locked(self.inner.slots.raw())
         });
         let mut guard = self.inner.slots.lock().unwrap();
         let mut i = 0;
@@ -685,7 +691,7 @@ impl<M: Manager, W: From<Object<M>>> Pool<M, W> {
     pub fn status(&self) -> Status {
         #[cfg(deadpool_verif)]
         verif::lock_point("managed.status.lock", || {
-            verif::is_locked(&self.inner.slots)
+            verif::is_locked(self.inner.slots.raw())
         });
         let slots = self.inner.slots.lock().unwrap();
         let users = self.inner.users.load(Ordering::Relaxed);
@@ -802,7 +808,7 @@ impl<M: Manager> PoolInner<M> {
     /// the permit must not be used.
     fn settle_debt(&self) -> bool {
         #[cfg(deadpool_verif)]
-        verif::lock_point("managed.get.settle.lock", || verif::is_locked(&self.slots));
+        verif::lock_point("managed.get.settle.lock", || verif::is_locked(self.slots.raw()));
         let mut slots = self.slots.lock().unwrap();
         if slots.debt > 0 {
             slots.debt -= 1;
@@ -825,7 +831,7 @@ impl<M: Manager> PoolInner<M> {
         #[cfg(deadpool_verif)]
         verif::point("managed.return.post_users");
         #[cfg(deadpool_verif)]
-        verif::lock_point("managed.return.lock", || verif::is_locked(&self.slots));
+        verif::lock_point("managed.return.lock", || verif::is_locked(self.slots.raw()));
         let mut slots = self.slots.lock().unwrap();
         if slots.debt == 0 {
             slots.vec.push_back(inner);
@@ -849,7 +855,7 @@ impl<M: Manager> PoolInner<M> {
         #[cfg(deadpool_verif)]
         verif::point("managed.detach.post_users");
         #[cfg(deadpool_verif)]
-        verif::lock_point("managed.detach.lock", || verif::is_locked(&self.slots));
+        verif::lock_point("managed.detach.lock", || verif::is_locked(self.slots.raw()));
         let mut slots = self.slots.lock().unwrap();
         slots.size -= 1;
         self.release_permit(&mut slots);
